@@ -181,6 +181,9 @@ func (c *Ctx) finish(level, explanation string, assumptions []string) int {
 		}
 	}
 	replayDir := filepath.Join(verifDir(), "replay", c.Prop)
+	if os.Getenv("GGV_NO_REPLAY") != "" {
+		replayDir = filepath.Join(os.TempDir(), "ggv_replay", c.Prop)
+	}
 	os.RemoveAll(replayDir)
 	for i, o := range violated {
 		os.MkdirAll(replayDir, 0o755)
